@@ -68,8 +68,50 @@ var inlCounter int
 func stmtInline(cpkg *packages.Package, cfile *ast.File, call *ast.CallExpr, ccontent []byte,
 	hpkg *packages.Package, hdecl *ast.FuncDecl, hcontent []byte) ([]byte, error) {
 	hfn := hpkg.TypesInfo.Defs[hdecl.Name].(*types.Func)
-	return stmtInlineSig(cpkg, cfile, call, ccontent, hpkg, hdecl, hcontent, hfn.Type().(*types.Signature))
+	sig := hfn.Type().(*types.Signature)
+	if sig.TypeParams().Len() > 0 {
+		// the instantiation at this call
+		var id *ast.Ident
+		fun := ast.Unparen(call.Fun)
+		if ix, ok := fun.(*ast.IndexExpr); ok {
+			fun = ix.X
+		} else if ix, ok := fun.(*ast.IndexListExpr); ok {
+			fun = ix.X
+		}
+		switch x := fun.(type) {
+		case *ast.Ident:
+			id = x
+		case *ast.SelectorExpr:
+			id = x.Sel
+		}
+		if id == nil {
+			return nil, fmt.Errorf("generic callee reached through an expression")
+		}
+		inst, ok := cpkg.TypesInfo.Instances[id]
+		if !ok || inst.TypeArgs.Len() != sig.TypeParams().Len() {
+			return nil, fmt.Errorf("no instantiation recorded for the generic callee")
+		}
+		isig, ok := inst.Type.(*types.Signature)
+		if !ok {
+			return nil, fmt.Errorf("instantiated callee is not a function")
+		}
+		typeArgs = map[*types.TypeName]types.Type{}
+		for i := 0; i < sig.TypeParams().Len(); i++ {
+			if _, stillParam := inst.TypeArgs.At(i).(*types.TypeParam); stillParam {
+				typeArgs = nil
+				return nil, fmt.Errorf("instantiated with a type parameter of the caller")
+			}
+			typeArgs[sig.TypeParams().At(i).Obj()] = inst.TypeArgs.At(i)
+		}
+		defer func() { typeArgs = nil }()
+		sig = isig
+	}
+	return stmtInlineSig(cpkg, cfile, call, ccontent, hpkg, hdecl, hcontent, sig)
 }
+
+// typeArgs: for a generic callee, the type argument each type parameter is instantiated with at
+// the call being inlined (set by stmtInline for the duration of the call).
+var typeArgs map[*types.TypeName]types.Type
 
 // stmtInlineSig: hdecl may be synthesised from a function literal (no name, no receiver); sig is
 // the callee's signature.
@@ -81,7 +123,7 @@ func stmtInlineSig(cpkg *packages.Package, cfile *ast.File, call *ast.CallExpr, 
 	}
 	fset := cpkg.Fset
 	cinfo, hinfo := cpkg.TypesInfo, hpkg.TypesInfo
-	if sig.Variadic() || sig.TypeParams().Len() > 0 || sig.RecvTypeParams().Len() > 0 {
+	if sig.Variadic() || (sig.TypeParams().Len() > 0 && typeArgs == nil) || sig.RecvTypeParams().Len() > 0 {
 		return nil, fmt.Errorf("variadic or generic callee")
 	}
 	if call.Ellipsis.IsValid() {
@@ -389,6 +431,12 @@ func stmtInlineSig(cpkg *packages.Package, cfile *ast.File, call *ast.CallExpr, 
 			if _, isField := obj.(*types.Var); isField && obj.(*types.Var).IsField() {
 				return true
 			}
+			if tn, isTN := obj.(*types.TypeName); isTN && typeArgs != nil {
+				if ta, ok := typeArgs[tn]; ok {
+					eds = append(eds, textEdit{off(x.Pos()), off(x.End()), "(" + typeStr(ta) + ")"})
+					return true
+				}
+			}
 			if local(obj) {
 				eds = append(eds, textEdit{off(x.Pos()), off(x.End()), x.Name + suffix})
 				return true
@@ -509,6 +557,17 @@ func stmtInlineSig(cpkg *packages.Package, cfile *ast.File, call *ast.CallExpr, 
 	// the inlined body; no flag variable is needed and the paths stay separate in the flow graph ----
 	guard := false
 	guardText := ""
+	var guardExtra []textEdit // edits in the caller's file (a label for the enclosing loop)
+	constBool := func(r *ast.ReturnStmt) (val, ok bool) {
+		if len(r.Results) != 1 {
+			return false, false
+		}
+		id, isId := r.Results[0].(*ast.Ident)
+		if !isId || (id.Name != "true" && id.Name != "false") || hinfo.Uses[id] == nil || hinfo.Uses[id].Parent() != types.Universe {
+			return false, false
+		}
+		return id.Name == "true", true
+	}
 	if kind == ctxIfCond && ifs.Else == nil && len(returns) > 0 {
 		guard = true
 		for _, r := range returns {
@@ -516,22 +575,32 @@ func stmtInlineSig(cpkg *packages.Package, cfile *ast.File, call *ast.CallExpr, 
 				guard = false
 				break
 			}
-			id, ok := r.Results[0].(*ast.Ident)
-			if !ok || (id.Name != "true" && id.Name != "false") || hinfo.Uses[id] == nil || hinfo.Uses[id].Parent() != types.Universe {
-				guard = false
-				break
-			}
 		}
 		n := len(ifs.Body.List)
+		var lastBranch *ast.BranchStmt
 		if n == 0 || n > 6 {
 			guard = false
-		} else if _, isRet := ifs.Body.List[n-1].(*ast.ReturnStmt); !isRet {
-			guard = false
+		} else {
+			switch last := ifs.Body.List[n-1].(type) {
+			case *ast.ReturnStmt:
+			case *ast.BranchStmt:
+				if last.Tok == token.CONTINUE || last.Tok == token.BREAK {
+					lastBranch = last
+				} else {
+					guard = false
+				}
+			default:
+				guard = false
+			}
 		}
 		if guard {
 			ast.Inspect(ifs.Body, func(m ast.Node) bool {
-				switch m.(type) {
-				case *ast.FuncLit, *ast.BranchStmt, *ast.LabeledStmt, *ast.ForStmt, *ast.RangeStmt, *ast.SwitchStmt, *ast.TypeSwitchStmt, *ast.SelectStmt, *ast.DeferStmt, *ast.GoStmt:
+				switch x := m.(type) {
+				case *ast.BranchStmt:
+					if x != lastBranch {
+						guard = false
+					}
+				case *ast.FuncLit, *ast.LabeledStmt, *ast.ForStmt, *ast.RangeStmt, *ast.SwitchStmt, *ast.TypeSwitchStmt, *ast.SelectStmt, *ast.DeferStmt, *ast.GoStmt:
 					guard = false
 				}
 				return guard
@@ -540,17 +609,71 @@ func stmtInlineSig(cpkg *packages.Package, cfile *ast.File, call *ast.CallExpr, 
 		if guard {
 			guardText = srcOf(ifs.Body)
 		}
+		if guard && lastBranch != nil && lastBranch.Label == nil {
+			// continue / break of the enclosing loop: it has to name the loop, because the copy of S
+			// stands inside the loop that wraps the inlined body
+			var loop ast.Stmt
+			var loopParent ast.Node
+			for i, nd := range path {
+				switch x := nd.(type) {
+				case *ast.ForStmt, *ast.RangeStmt:
+					loop = x.(ast.Stmt)
+				case *ast.SwitchStmt, *ast.TypeSwitchStmt, *ast.SelectStmt:
+					if lastBranch.Tok == token.BREAK {
+						guard = false
+					}
+				case *ast.FuncLit, *ast.FuncDecl:
+					guard = false
+				}
+				if loop != nil {
+					if i+1 < len(path) {
+						loopParent = path[i+1]
+					}
+					break
+				}
+				if !guard {
+					break
+				}
+			}
+			if loop == nil {
+				guard = false
+			}
+			if guard {
+				lbl := ""
+				if ls, ok := loopParent.(*ast.LabeledStmt); ok {
+					lbl = ls.Label.Name
+				} else {
+					lbl = fmt.Sprintf("loop__%d", inlCounter)
+					at := fset.File(cfile.Pos()).Offset(loop.Pos())
+					guardExtra = append(guardExtra, textEdit{at, at, lbl + ":\n"})
+				}
+				// re-write the trailing branch statement of the copy
+				tfc0 := fset.File(cfile.Pos())
+				bs := tfc0.Offset(ifs.Body.Pos())
+				ls, le := tfc0.Offset(lastBranch.Pos())-bs, tfc0.Offset(lastBranch.End())-bs
+				guardText = guardText[:ls] + lastBranch.Tok.String() + " " + lbl + guardText[le:]
+			}
+		}
 	}
 	// ---- returns ----
 	for _, r := range returns {
 		s, e := off(r.Pos()), off(r.End())
 		if guard {
-			taken := (r.Results[0].(*ast.Ident).Name == "true") != negate
-			if taken {
-				eds = append(eds, textEdit{s, e, guardText})
-			} else {
-				eds = append(eds, textEdit{s, e, "break " + label})
+			if v, isConst := constBool(r); isConst {
+				if v != negate {
+					eds = append(eds, textEdit{s, e, guardText})
+				} else {
+					eds = append(eds, textEdit{s, e, "break " + label})
+				}
+				continue
 			}
+			// return E  ->  { if [!](E) { S }; break label }
+			open := "{ if ("
+			if negate {
+				open = "{ if !("
+			}
+			eds = append(eds, textEdit{s, s + len("return"), open})
+			eds = append(eds, textEdit{e, e, ") " + guardText + "\nbreak " + label + " }"})
 			continue
 		}
 		if len(r.Results) == 0 {
@@ -683,6 +806,7 @@ func stmtInlineSig(cpkg *packages.Package, cfile *ast.File, call *ast.CallExpr, 
 	}
 	b.WriteString("}\n")
 	var out []textEdit
+	out = append(out, guardExtra...)
 	if initOf != nil {
 		kw := "if "
 		switch initOf.(type) {
